@@ -9,6 +9,8 @@ SINKS = ["direct", "callee"]
 
 
 class Chain:
+    lang = "python"
+
     def __init__(self, source, connectors, sink, split=False):
         self.source, self.connectors, self.sink, self.split = source, list(connectors), sink, split
         self.name = "%s__%s__%s%s" % (source, "_".join(connectors) or "none", sink, "@split" if split else "")
@@ -80,6 +82,80 @@ class Chain:
         return "\n".join(lines)
 
 
+JS_CONNECTORS = ["assign", "binop", "call_return", "field", "element", "dict", "closure", "global", "branch", "loop_once", "augmented",
+                 "list_append", "field_append", "method_store", "alias_field"]
+
+
+class JsChain(Chain):
+    """the same flow chains written in javascript (the connectors that have a counterpart)"""
+    lang = "javascript"
+
+    def __init__(self, source, connectors, sink):
+        Chain.__init__(self, source, connectors, sink)
+        self.name = "js_" + self.name
+
+    def render(self):
+        top = ["var G0 = null;", "class Box {", "    constructor() {", "        this.f = null;", "        this.items = [];", "    }",
+               "    put(a) {", "        this.f = a;", "    }", "}"]
+        body = []
+        cur = "v0"
+        body.append("var v0 = source();" if self.source == "call" else "var v0 = p_src;")
+        for i, k in enumerate(self.connectors):
+            nv = "v%d" % (i + 1)
+            if k == "assign":
+                body.append("var %s = %s;" % (nv, cur))
+            elif k == "binop":
+                body.append('var %s = %s + "x";' % (nv, cur))
+            elif k == "augmented":
+                body += ['var %s = "y";' % nv, "%s += %s;" % (nv, cur)]
+            elif k == "call_return":
+                top += ["function ident%d(a) {" % i, "    var b = a;", "    return b;", "}"]
+                body.append("var %s = ident%d(%s);" % (nv, i, cur))
+            elif k == "field":
+                body += ["var o%d = new Box();" % i, "o%d.f = %s;" % (i, cur), "var %s = o%d.f;" % (nv, i)]
+            elif k == "element":
+                body += ["var xs%d = [0, %s];" % (i, cur), "var %s = xs%d[1];" % (nv, i)]
+            elif k == "dict":
+                body += ['var d%d = {"k": %s, "j": 1};' % (i, cur), 'var %s = d%d["k"];' % (nv, i)]
+            elif k == "closure":
+                body += ["function inner%d() {" % i, "    return %s;" % cur, "}", "var %s = inner%d();" % (nv, i)]
+            elif k == "global":
+                top += ["function setg%d(a) {" % i, "    G0 = a;", "}"]
+                body += ["setg%d(%s);" % (i, cur), "var %s = G0;" % nv]
+            elif k == "branch":
+                body += ["var %s = null;" % nv, "if (1 > 0) {", "    %s = %s;" % (nv, cur), "} else {", '    %s = "clean";' % nv, "}"]
+            elif k == "loop_once":
+                body += ['var %s = "clean";' % nv, "for (var i%d = 0; i%d < 1; i%d++) {" % (i, i, i), "    %s = %s;" % (nv, cur), "}"]
+            elif k == "list_append":
+                body += ["var ls%d = [];" % i, "ls%d.push(%s);" % (i, cur), "var %s = ls%d[0];" % (nv, i)]
+            elif k == "field_append":
+                body += ["var ob%d = new Box();" % i, "ob%d.items.push(%s);" % (i, cur), "var %s = ob%d.items[0];" % (nv, i)]
+            elif k == "method_store":
+                body += ["var om%d = new Box();" % i, "om%d.put(%s);" % (i, cur), "var %s = om%d.f;" % (nv, i)]
+            elif k == "alias_field":
+                body += ["var oa%d = new Box();" % i, "var ob%d = oa%d;" % (i + 50, i), "ob%d.f = %s;" % (i + 50, cur), "var %s = oa%d.f;" % (nv, i)]
+            else:
+                raise ValueError(k)
+            cur = nv
+        body += ['var clean = "c" + "d";', "other(%s);" % cur]
+        if self.sink == "direct":
+            body += ["sink(%s);" % cur, "sink(clean);"]
+        else:
+            top += ["function use(a) {", "    sink(a);", "}"]
+            body += ["use(%s);" % cur, "sink(clean);"]
+        head = "function handler(p_src) {" if self.source == "param" else "function handler(p_x) {"
+        return "\n".join(top + [head] + ["    " + x for x in body] + ["}", 'handler("a");', ""])
+
+
+def js_universe(tier, seed):
+    import random
+    one = [JsChain(s, c, k) for s in SOURCES for c in ([()] + [(x,) for x in JS_CONNECTORS]) for k in SINKS]
+    two = [JsChain(s, c, k) for s in SOURCES for c in itertools.product(JS_CONNECTORS, repeat=2) for k in SINKS]
+    if tier == "thorough":
+        return one + two
+    return one + random.Random(seed).sample(two, 30)
+
+
 def universe(tier, seed):
     import random
     one = [Chain(s, c, k) for s in SOURCES for c in ([()] + [(x,) for x in CONNECTORS]) for k in SINKS]
@@ -112,3 +188,5 @@ SETTINGS_SPLIT = {
                  "    - operation: call_stmt\n      name: sink\n      unit_name: p.py\n      target: [\\%arg0]\n      vuln_type: generic\n",
     "propagation.yaml": "[]\n",
 }
+
+SETTINGS_JS = {k: v.replace("lang: python", "lang: javascript") for k, v in SETTINGS.items()}
